@@ -121,6 +121,16 @@ class EnumMember:
         return f'{self.cls.name}.{self.name}'
 
 
+class _NtMethod:
+    """Bound helper method of a typing.NamedTuple instance (_asdict, _replace); called through the vp_call protocol."""
+
+    def __init__(self, fn):
+        self.fn = fn
+
+    def vp_call(self, interp, args, kwargs, node):
+        return self.fn(interp, args, kwargs, node)
+
+
 class GenResult(list):
     """Values produced by a generator function (evaluated eagerly)."""
 
@@ -879,6 +889,13 @@ class Interp:
             v = self.class_attr(obj.cls, attr)
             if v is not _MISSING:
                 return v
+            if self.is_namedtuple(obj.cls) and attr in ('_asdict', '_replace', '_fields'):
+                names = [n for n, _ in obj.cls.dataclass_fields()]
+                if attr == '_fields':
+                    return tuple(names)
+                if attr == '_asdict':
+                    return _NtMethod(lambda it_, args, kwargs, n_: {k: it_.getattr(obj, k, n_) for k in names})
+                return _NtMethod(lambda it_, args, kwargs, n_: SObj(obj.cls, {**{k: it_.getattr(obj, k, n_) for k in names}, **kwargs}))
             raise AnalysisError(f'unknown attribute {obj.cls.name}.{attr} at {self.where(node)}')
         if isinstance(obj, EnumMember):
             if attr in ('name', 'value'):
